@@ -17,6 +17,16 @@
      over the full op language and every accepted call is framed;
    C03_frame_tokens_edit (exact window of one edit) / C03_frame_tokens (any accepted call): tokens that appear or
      disappear are separator-kind or the children's own, everything outside is the identical list.
+   Value-level routes map onto these theorems as follows (the view's own index bookkeeping is C10's Views.v):
+     del view[i] / del view[a:b:k] / view.clear() / view.discard(v)  =  drop_many(raw positions of the addressed view
+       elements)  - C03_drop_many for ANY position list: exactly those raw items go, in descending runs; an element of
+       another kind lying between two addressed elements is in no run, hence untouched (what a "one raw slice" shortcut
+       would break);   view.pop(i) / view.remove(v) = raw pop(position) - C03_pop;   view[i] = x / view[a:b] = xs =
+       in-place update or raw xs[position] = node, one position at a time - C03_setitem_int;   view.insert / append /
+       extend = raw insert / append / extend - C03_insert / C03_append / C03_extend;   owner.view += xs = extend, then
+       the assignment of the cached view to itself, a no-op.
+     Which raw positions a view call addresses is checked on every run by the monitor C03:view-addressed-element
+     (reference recomputed from the raw list, by identity).
    The single-child slots (Fields.v) keep their exposed-span statements (`_partial`): the pivot / first / last chains
    that expose the span are generated code (C05 / C15). *)
 From AB Require Import Prelude PySeq RepeatedLib Repeated Fields RepeatedProofs RepeatedLayout RepeatedInsert RepeatedCells
